@@ -132,6 +132,8 @@ type worker struct {
 	viol       map[string]*cand
 	samples    []any
 	sampling   bool
+	crossCheck bool // also serve through httptest.ResponseRecorder and compare
+	lw         lightRW
 	onlyMethod int // >= 0: serve only this request method (replay)
 	// what is in flight (for panic reports)
 	curRegs []regSpec
@@ -182,7 +184,8 @@ func (w *worker) record(class string, regs []regSpec, mi, pid int, exp, got stri
 	if mi >= 0 {
 		c.cost[2] = len(paths[pid].raw)
 	}
-	old := w.viol[class]
+	group := groupOf(class)
+	old := w.viol[group]
 	if old != nil && cmpCost(c.cost, old.cost) > 0 {
 		return
 	}
@@ -195,7 +198,21 @@ func (w *worker) record(class string, regs []regSpec, mi, pid int, exp, got stri
 	}
 	c.regs = append([]regSpec(nil), regs...)
 	c.exp, c.got = exp, got
-	w.viol[class] = &c
+	w.viol[group] = &c
+}
+
+// groupOf maps a class "kind:shape+flag..." to its cause group "kind+flag..." (shape and
+// spelling flags dropped). Per group only the smallest failing case is kept, and its full class
+// (with the shape of that smallest case) is what gets reported: one class per cause.
+func groupOf(class string) string {
+	kind, rest, _ := strings.Cut(class, ":")
+	parts := strings.Split(rest, "+")
+	for _, f := range parts[1:] {
+		if !strings.HasPrefix(f, "unclean-") {
+			kind += "+" + f
+		}
+	}
+	return kind
 }
 
 func fmtVars(m map[string]string) string {
@@ -343,7 +360,7 @@ func (w *worker) runTable(regs []regSpec, reqSet []int, redup bool) (completed b
 			}
 			cls := "reg-accepted-" + reason + ":" + sh
 			if reason == "method" {
-				cls = "reg-accepted-method:" + strconvQuote(allMethods[g.m])
+				cls = "reg-accepted-method:" + methodLabel(allMethods[g.m])
 			}
 			w.record(cls, regs[:i+1], -1, 0, "Handle("+g.String()+") returns an error ("+reason+")", "nil error")
 			return false
@@ -533,7 +550,12 @@ func maxInt(a, b int) int {
 	return b
 }
 
-func strconvQuote(s string) string { return fmt.Sprintf("%q", s) }
+func methodLabel(s string) string {
+	if s == "" {
+		return "empty"
+	}
+	return s
+}
 
 // ---- replay artefact ----
 
